@@ -215,6 +215,67 @@ def _walk_contract(n, mask):
 import itertools as _it
 WALK = [_walk_contract(n, mask) for n in range(0, 4) for mask in _it.product((True, False), repeat=n)]
 
+# ------------------------------------------------------------------ file scan with limits
+def _replay_scan(inp):
+    """the real search_in_file_ios over n files of which some match: how many are opened, which are yielded"""
+    from pyvc.replay import run_real
+    from jedi.inference import references as ref
+    opened = []
+    real = ref._check_fs
+
+    def fake_check(inference_state, file_io, regex):
+        opened.append(file_io)
+        return ('module', file_io) if file_io in inp['matching'] else None
+    ref._check_fs = fake_check
+    try:
+        out = run_real(lambda: list(ref.search_in_file_ios(None, iter(range(inp['n'])), 'name',
+                                                           limit_reduction=inp['reduction'])))
+    finally:
+        ref._check_fs = real
+    parse_limit = ref._PARSED_FILE_LIMIT / inp['reduction']
+    open_limit = ref._OPENED_FILE_LIMIT / inp['reduction']
+    exp, n_open = [], 0
+    for f in range(inp['n']):
+        n_open += 1
+        if f in inp['matching']:
+            exp.append(('module', f))
+            if len(exp) >= parse_limit:
+                break
+        if n_open >= open_limit:
+            break
+    return {'EXPECTED': exp, 'OPENED': list(opened), 'EXPECTED_OPENED': list(range(n_open))}, out
+
+
+_scan = Contract(
+    id='C19.search_in_file_ios', prop='C19',
+    clause='the file scan reports, in scan order, exactly the files that pass the text pre-filter and load as python '
+           'modules - every one of them until a limit is hit, and nothing else',
+    file='jedi/inference/references.py', qualname='search_in_file_ios',
+    params={'inference_state': ANY, 'file_io_iterator': Seq(ANY), 'name': STR, 'limit_reduction': INT, 'complete': BOOL},
+    families=[], yields=ANY, locals={'file_io_count': INT, 'parsed_file_count': INT}, drop_calls=['dbg'],
+    requires=['limit_reduction >= 1'],
+    yield_each_local=['c == the(_check_fs(inference_state, file_io, regex))',
+                      '_check_fs(inference_state, file_io, regex) is not None'],
+    invariants={0: [
+        'file_io_count == len(DONE)', 'parsed_file_count == len(YIELDED)', 'parsed_file_count <= file_io_count',
+        # completeness up to here: every scanned file that passes is among the yielded ones
+        'all(implies(_check_fs(inference_state, f, regex) is not None, '
+        'the(_check_fs(inference_state, f, regex)) in YIELDED) for f in DONE)',
+    ]},
+    ensures=['all(implies(_check_fs(inference_state, f, re.compile("\\\\b" + re.escape(name) + ("" if complete else "\\\\b"))) is not None, '
+             'the(_check_fs(inference_state, f, re.compile("\\\\b" + re.escape(name) + ("" if complete else "\\\\b")))) in result) for f in file_io_iterator) or '
+             'len(result) * limit_reduction >= 30 or len(file_io_iterator) * limit_reduction >= 2000'],
+    witness={}, replay=_replay_scan, concrete_only=True,
+    concrete_ensures=['result == EXPECTED', 'OPENED == EXPECTED_OPENED'],
+    witness_library=[{'n': 50, 'matching': list(range(0, 50, 3)), 'reduction': 1},
+                     {'n': 50, 'matching': list(range(50)), 'reduction': 1},
+                     {'n': 50, 'matching': list(range(50)), 'reduction': 10},
+                     {'n': 2100, 'matching': [5, 2050], 'reduction': 1},
+                     {'n': 300, 'matching': [250], 'reduction': 10}],
+    notes='the limits (30 parsed / 2000 opened files, divided by limit_reduction) are jedi\'s documented give-up; the '
+          'pre-filter + load (_check_fs, under contract for C17) is an abstract pure callee',
+)
+
 _search_in_module_last = None
 
 FAMILIES = [
@@ -222,11 +283,17 @@ FAMILIES = [
     Family('DefAPI', attrs={'_name': Obj('NameW'), 'type': STR, 'module_path': Opt(PATH)}),
 ]
 
-CONTRACTS = [_expand, _split, _skip_dups] + WALK
+CONTRACTS = [_expand, _split, _skip_dups, _scan] + WALK
 
 
 def register(reg):
     reg.names['search_results'] = _search_results
+    from pyvc.values import MNS as _NS, MFn as _MF
+    _rx = FnSpec('re.compile', params=[('pattern', STR)], ret=ANY, pure=True, assumed=True)
+    _esc = FnSpec('re.escape', params=[('s', STR)], ret=STR, pure=True, assumed=True)
+    reg.names['re'] = _NS('re', {'compile': _MF('spec', 're.compile', spec=_rx), 'escape': _MF('spec', 're.escape', spec=_esc)})
+    reg.names['_check_fs'] = FnSpec('_check_fs', params=[('inference_state', ANY), ('file_io', ANY), ('regex', ANY)],
+                                    ret=Opt(ANY), pure=True, assumed=False, note='C17._check_fs')
 
 
 IGNORED_BY_PROPERTY = ['venv', '.venv', '.tox', '.mypy_cache', '__pycache__']
